@@ -90,11 +90,36 @@ def streams(ctx):
                 continue
             der.append({"req": l, "index": i, "history": [cs[i]["req"]],
                         "check": (lambda out, o=o: None if out == o else ("model", f"parser gives {o[:300]} ; model gives {out[:300]}"))})
+        # what the server REPORTS for these documents: the ranges of the real generate_diagnostics (a storer in which no declared
+        # version exists, so that every checked package gets a diagnostic)
+        wire_a = vlib.run_impl([vlib.line("diag.ranges", e, t) for e, t in docs])
+        for i, ((eco, text), w) in enumerate(zip(docs, wire_a)):
+            if not w.startswith("n="):
+                continue            # (a crash is C06's subject)
+            lines_t = text.split("\n")
+            wl = w.split(" ", 1)
+            for rng_ in [x for x in (wl[1].split(";") if len(wl) > 1 and wl[1] else [])]:
+                l1, rest = rng_.split(":", 1)
+                c1, rest2 = rest.split("-", 1)
+                l2, c2 = rest2.split(":")
+                prob = None
+                if l1 != l2:
+                    prob = f"a diagnostic range runs from line {l1} to line {l2}"
+                elif int(l1) >= len(lines_t):
+                    prob = f"a diagnostic on line {l1} of a document with {len(lines_t)} lines"
+                elif not (int(c1) <= int(c2) <= utf16_len(lines_t[int(l1)].rstrip("\r")) + (1 if lines_t[int(l1)].endswith("\r") else 0)):
+                    prob = f"diagnostic characters {c1}..{c2} on line {l1}, which has {utf16_len(lines_t[int(l1)])} UTF-16 units"
+                if prob:
+                    der.append({"req": vlib.line("ml.settle"), "index": i, "history": [cs[i]["req"]],
+                                "check": (lambda out, prob=prob, eco=eco: ("violation", f"{eco}: {prob}"))})
+                    break
         for i, ((eco, text), o) in enumerate(zip(docs, impl)):
             if o.startswith(("PANIC", "ABORT", "HANG")):
                 continue
             for p in pkgs_of(o):
                 bad = structural(text, p)
+                if bad and classify_struct(eco, text, p, bad) == "F-C05-5":
+                    continue        # a value written over several lines: the parser's range is internal, nothing is reported for it (judged above)
                 if bad:
                     kid = classify_struct(eco, text, p, bad)
                     der.append({"req": vlib.line("ml.settle"), "index": i, "history": [cs[i]["req"]],
@@ -150,6 +175,8 @@ def streams(ctx):
                 occ, k0 = [], b.find(tb)
                 while k0 >= 0:
                     occ.append(k0); k0 = b.find(tb, k0 + 1)
+                if bad and classify_struct(eco, text, p, bad) == "F-C05-5":
+                    continue        # written over several lines: not reported (the structural stream judges that nothing is)
                 if bad:
                     why = "; ".join(bad)
                     kid = classify_struct(eco, text, p, bad)
@@ -227,7 +254,12 @@ def streams(ctx):
             wl = wirew[i].split(" ", 1)
             wds = [x for x in (wl[1].split(";") if len(wl) > 1 and wl[1] else [])]
             for k, p in enumerate(allp):
-                if structural(text, p):
+                sb = structural(text, p)
+                if sb and classify_struct(eco, text, p, sb) == "F-C05-5":
+                    if len(wds) != 0:
+                        broken = True        # a value written over several lines must not be reported at all
+                    continue
+                if sb:
                     broken = True
                 elif spec is not None and len(wds) != len(allp) and (b[p["start"]:p["end"]].decode("utf-8", "replace") != spec or p["start"] != b.rfind(spec.encode("utf-8"))):
                     broken = True          # (no diagnostic to judge: the parser's own range is judged)
